@@ -641,14 +641,14 @@ pub fn run(ctx: &Ctx) {
     ctx.rule("conditionals: well-nested trees (depth 0..6) of \\iftrue \\iffalse \\ifnum \\ifodd \\ifcase with \\or/\\else/\\fi, i32 operands (constants or \\count reads), unique 3-letter tags in every branch, junk (unbalanced braces, undefined control sequences, \\or at nesting depth>=1, extra \\else inside a nested conditional) and \\let-aliases in skipped text; output compared with a tree evaluator. non-trivial = depth>=3 or a negative/out-of-range operand evaluated or an aliased primitive in skipped text. expansion: random token streams run under the optimised and the simple \\expandafter (differential), chains of \\expandafter^k against a one-step expansion model observed with \\vpcapture, and \\noexpand sequences; non-trivial = chain length>=2; distinct by program text");
     ctx.assume("\\or at nesting depth 0 of a skipped non-\\ifcase branch is an error in TeX (Extra \\or) and is not generated");
     ctx.assume("\\expandafter applied to \\noexpand is only checked differentially (its TeX meaning involves the dont_expand marker and is outside the stated property)");
-    let n = ctx.tier.pick(60_000u64, 1_500_000u64);
+    let n = ctx.tier.pick(250_000u64, 3_000_000u64);
     run_generated(ctx, "conditionals", n, cond_case_strategy, |c: &CondCase, case| cond_oracle(ctx, c, case));
-    let n = ctx.tier.pick(40_000u64, 1_000_000u64);
+    let n = ctx.tier.pick(120_000u64, 2_000_000u64);
     run_generated(ctx, "expandafter_differential", n, || proptest::collection::vec(xtok_strategy(), 0..24), |ts: &Vec<XTok>, case| diff_oracle(ts, case));
-    let n = ctx.tier.pick(30_000u64, 600_000u64);
+    let n = ctx.tier.pick(90_000u64, 1_000_000u64);
     run_generated(ctx, "expandafter_model_optimised", n, chain_strategy, |ts: &Vec<XTok>, case| chain_oracle(ts, false, case));
     run_generated(ctx, "expandafter_model_simple", n / 2, chain_strategy, |ts: &Vec<XTok>, case| chain_oracle(ts, true, case));
-    let n = ctx.tier.pick(10_000u64, 200_000u64);
+    let n = ctx.tier.pick(40_000u64, 400_000u64);
     let nt = prop_oneof![(0u8..5).prop_map(NTok::NoExpandM), (0u8..5).prop_map(NTok::M), (0u8..4).prop_map(NTok::L)];
     run_generated(ctx, "noexpand", n, move || proptest::collection::vec(nt.clone(), 0..10), |ts: &Vec<NTok>, case| noexpand_oracle(ts, case));
 }
